@@ -304,7 +304,11 @@ namespace cnl {
                                 + overflow_digits<Rhs, polarity::positive>::value
                         > traits::positive_digits)
                     && ((lhs < Lhs{0}) ? (rhs > Rhs{0}) && (traits::lowest() / rhs) > lhs
-                                       : (rhs < Rhs{0}) && (traits::lowest() / rhs) < lhs);
+                                       : (rhs < Rhs{0})
+                                                 // the most negative number cannot be divided by -1
+                                                 && !(has_most_negative_number<typename traits::result>::value
+                                                      && rhs == -1)
+                                                 && (traits::lowest() / rhs) < lhs);
             }
         };
 #if defined(__GNUC__)
